@@ -69,7 +69,7 @@ Qed.
 
 Lemma field_eqb_sound : forall a b, field_eqb a b = true -> a = b.
 Proof.
-  intros [a1 a2 a3 a4 a5 a6 a7 a8] [b1 b2 b3 b4 b5 b6 b7 b8] H. unfold field_eqb in H. cbn in H. split_andb.
+  intros [a1 a2 a3 a4 a5 a6 a7 a8 a9] [b1 b2 b3 b4 b5 b6 b7 b8 b9] H. unfold field_eqb in H. cbn in H. split_andb.
   f_equal; auto using bytes_eqb_sound, Z_eqb_sound, N_eqb_sound, bool_eqb_sound.
   apply (option_eqb_sound bytes_eqb); auto using bytes_eqb_sound.
 Qed.
@@ -113,7 +113,7 @@ Qed.
 
 Lemma method_eqb_sound : forall a b, method_eqb a b = true -> a = b.
 Proof.
-  intros [a1 a2 a3 a4 a5 a6] [b1 b2 b3 b4 b5 b6] H. unfold method_eqb in H. cbn in H. split_andb.
+  intros [a1 a2 a3 a4 a5 a6 a7] [b1 b2 b3 b4 b5 b6 b7] H. unfold method_eqb in H. cbn in H. split_andb.
   f_equal; auto using bytes_eqb_sound, bool_eqb_sound.
   apply (option_eqb_sound http_eqb); auto using http_eqb_sound.
 Qed.
@@ -175,13 +175,24 @@ Section Versions.
       exists g. split; auto. rewrite Forall_forall in IH. apply IH; auto.
   Qed.
 
+  Lemma method_sub_sound : forall me me', method_sub pa pb va vb me me' = true -> method_incl pa pb va vb me me'.
+  Proof.
+    intros me me' H. unfold method_sub in H. split_andb. unfold method_incl.
+    repeat split; auto using bytes_eqb_sound, bool_eqb_sound.
+    destruct (me_http me) as [h|]; auto.
+    destruct (me_http me') as [h'|]; try discriminate.
+    exists h'. split; auto. intros bd Hbd.
+    destruct (forallb_existsb (fun bd => binding_eqb (ren_binding va vb bd)) _ _ H0 bd Hbd) as [g [Hg E]].
+    apply binding_eqb_sound in E. rewrite E. auto.
+  Qed.
+
   Lemma svc_sub_sound : forall s s', svc_sub pa pb va vb s s' = true -> svc_incl pa pb va vb s s'.
   Proof.
     intros s s' H. unfold svc_sub in H. split_andb. split.
     - apply bytes_eqb_sound; auto.
     - intros me Hme.
-      destruct (forallb_existsb (fun me => method_eqb (ren_method pa pb va vb me)) _ _ H0 me Hme) as [g [Hg E]].
-      apply method_eqb_sound in E. rewrite E. auto.
+      destruct (forallb_existsb (method_sub pa pb va vb) _ _ H0 me Hme) as [g [Hg E]].
+      exists g. split; auto. apply method_sub_sound. auto.
   Qed.
 
   Lemma file_sub_sound : forall a b, file_sub pa pb va vb a b = true -> file_incl pa pb va vb a b.
@@ -252,9 +263,8 @@ Proof. intros a b [_ [_ [He _]]] e Hin. destruct (He e Hin) as [e' [H1 [H2 H3]]]
 
 Theorem superset_methods : forall a b, is_superset a b ->
   forall s, In s (fd_services a) -> exists s', In s' (fd_services b) /\ s_name s' = s_name s /\
-    forall me, In me (s_methods s) ->
-      In (ren_method (fd_package a) (fd_package b) (api_prefix (fd_package a)) (api_prefix (fd_package b)) me)
-         (s_methods s').
+    forall me, In me (s_methods s) -> exists me', In me' (s_methods s') /\
+      method_incl (fd_package a) (fd_package b) (api_prefix (fd_package a)) (api_prefix (fd_package b)) me me'.
 Proof. intros a b [_ [_ [_ Hs]]] s Hin. destruct (Hs s Hin) as [s' [H1 [H2 H3]]]. exists s'. auto. Qed.
 
 (* ------------------------------------------------------------------ gRPC and system numbers *)
@@ -284,6 +294,15 @@ Proof.
   - apply bytes_eqb_sound; auto.
   - apply bytes_eqb_sound in H0. rewrite <- H0. auto.
   - apply (option_eqb_sound Z.eqb); auto using Z_eqb_sound.
+Qed.
+
+Theorem runtime_ok_sound : forall rs rt, runtime_ok rs rt = true -> runtime_spec rs rt.
+Proof.
+  intros rs rt H n v Hin. unfold runtime_ok in H. rewrite forallb_forall in H. specialize (H _ Hin).
+  apply existsb_exists in H. destruct H as [x [Hx E]].
+  apply (pair_eqb_sound bytes_eqb (option_eqb Z.eqb)) in E; auto using bytes_eqb_sound.
+  - cbn in E. rewrite E. exact Hx.
+  - intros u w E'. apply (option_eqb_sound Z.eqb); auto using Z_eqb_sound.
 Qed.
 
 (* ------------------------------------------------------------------ sanity of the helpers *)
